@@ -40,8 +40,8 @@ def oenv():
         "OpBin": ext.OpDef("OpBin", ext.OpDefSig(None, binary=True), "signature computed elsewhere"),
         "OpNoDescr": ext.OpDef("OpNoDescr", ext.OpDefSig(tys.FunctionType([], [e["defs"]["Tp0"].instantiate([q.type_arg()])]))),
     }
-    for d in defs.values():
-        x.add_op_def(d)
+    for k in list(defs):
+        defs[k] = x.add_op_def(defs[k]) or defs[k]
     _oenv.update(opdefs=defs)
     return _oenv
 
